@@ -80,7 +80,7 @@ void explore11(Options const& o, std::vector<Shim*> const& shims, std::vector<Sh
   bool th = o.tier == "thorough";
   C11 c(rec);
   std::vector<i64> S;
-  for( i64 x : (th ? S_set(10,8) : S_set(8,8)) ) if( x >= 0 && x < LIM47 ) S.push_back(x);
+  for( i64 x : merge_sets(th ? S_set(10,8) : S_set(8,8), S2_set(th ? 3 : 2)) ) if( x >= 0 && x < LIM47 ) S.push_back(x);
   std::vector<i64> P = filter_abs_below(th ? S_set(5,2) : S_set(4,2), LIM47);
   std::vector<std::pair<i64,i64>> grid;      // dense grid [-G,G]^2 scaled by 2^j
   { int G = th ? 96 : 24; for( int j = 0; j <= 38; j += (th ? 1 : 2) ) for( int gy = -G; gy <= G; ++gy ) for( int gx = -G; gx <= G; ++gx ) grid.push_back({ static_cast<i64>(gy) << j, static_cast<i64>(gx) << j }); }
@@ -159,7 +159,7 @@ void explore12(Options const& o, std::vector<Shim*> const& shims, std::vector<Sh
   bool th = o.tier == "thorough";
   C12 c(rec); c.build();
   std::vector<i64> out_set;
-  for( i64 x : (th ? S_set(8,6,true) : S_set(6,4,true)) ) if( x > 65536 || x < -65536 ) out_set.push_back(x);
+  for( i64 x : merge_sets(th ? S_set(8,6,true) : S_set(6,4,true), S2_set(th ? 3 : 2)) ) if( x > 65536 || x < -65536 ) out_set.push_back(x);
   i64 W = th ? (1 << 22) : (1 << 18);
   for( i64 d = 1; d <= W; ++d ) { out_set.push_back(65536 + d); out_set.push_back(-65536 - d); }
   std::sort(out_set.begin(), out_set.end()); out_set.erase(std::unique(out_set.begin(), out_set.end()), out_set.end());
